@@ -9,6 +9,7 @@ equal coefficients, same objective, same constraint / function names, same MOSEK
 import z3
 
 from vf import runner, pipeline, sdp
+from vf.denote import registered_functions
 from vf.engine import lift
 from vf.solverstub import CvxStub, MosekStub
 
@@ -19,6 +20,33 @@ def setup_symbolic():
 
 def setup_concrete():
     pipeline.setup_concrete()
+    record_real_cvxpy_kwargs()
+
+
+def record_real_cvxpy_kwargs():
+    """replays: remember the keyword arguments of the last real cvxpy Problem.solve call on the problem object"""
+    import cvxpy
+    if getattr(cvxpy.Problem, '_vf_rec', False) or getattr(cvxpy, 'STANDIN', False):
+        return
+    orig = cvxpy.Problem.solve
+
+    def solve(self, *a, **kw):
+        self._vf_solve_kwargs = dict(kw)
+        return orig(self, *a, **kw)
+    cvxpy.Problem.solve = solve
+    cvxpy.Problem._vf_rec = True
+
+
+def solver_call_options(w, backend):
+    """options of the last solver call made through the cvxpy back-end (sorted, printable)"""
+    if backend == 'mosek' or getattr(w, 'prob', None) is None:
+        return None
+    kw = getattr(w.prob, 'solve_kwargs', None)
+    if kw is None:
+        kw = getattr(w.prob, '_vf_solve_kwargs', None)
+    if kw is None:
+        return None
+    return sorted((k, repr(v)) for k, v in kw.items())
 
 
 def default_values(case):
@@ -48,13 +76,14 @@ def record(env, m, backend):
         else:
             from vf.props.c05 import rows_from_real_cvxpy
             rec = rows_from_real_cvxpy(w)
-        struct = dict(n_solver_constraints=len(w._list_of_solver_constraints))
+        struct = dict(n_solver_constraints=len(w._list_of_solver_constraints),
+                      solver_call_options=solver_call_options(w, backend))
     rows = []
     for r in rec['rows']:
         rows.append((r['kind'], r['form'], r['const']))
     names = dict(constraints=[c.get_name() for c in pep._list_of_constraints_sent_to_wrapper],
                  n_sent=len(pep._list_of_constraints_sent_to_wrapper), n_psd=len(pep._list_of_psd_sent_to_wrapper),
-                 functions=[(f.get_name(), f.counter) for f in Function.list_of_functions],
+                 functions=[(f.get_name(), f.counter) for f in registered_functions()],
                  n_leaf_points=Point.counter, n_leaf_expr=Expression.counter,
                  objective_index=pep.objective.counter, pep_counter=pep.counter)
     return dict(rows=rows, psd=list(rec['psd']), objective=rec['objective'], names=names, struct=struct,
@@ -104,7 +133,7 @@ FRAGMENTS = [
     ('qg', dict(fclass='qg', steps=['grad'], stationary=False)),
     ('null-accumulate', dict(fclass='ssc', steps=['grad', 'grad'], null_accumulate=True)),
 ]
-ENDINGS = ['solved', 'solved-verbose', 'failed', 'exception', 'abandoned']
+ENDINGS = ['solved', 'solved-verbose', 'failed', 'exception', 'abandoned', 'solved-with-options']
 
 
 _HELD = []      # earlier models the "user" still references (released in the middle of B's second construction)
@@ -132,7 +161,12 @@ def run_fragment(env, name, spec, ending, backend, idx):
         elif ending == 'failed':
             from PEPit import Expression
             m.pep.set_performance_metric(Expression())      # a free leaf: really unbounded
-        m.pep.solve(wrapper=backend, verbose=1 if ending == 'solved-verbose' else 0)
+        if ending == 'solved-with-options':
+            # solver options of an earlier model (accuracy, iteration limit, solver log) belong to that call only
+            m.pep.solve(wrapper=backend, verbose=2, **(dict(solver='SCS', eps=1e-3, max_iters=50000)
+                                                      if backend == 'cvxpy' else {}))
+        else:
+            m.pep.solve(wrapper=backend, verbose=1 if ending == 'solved-verbose' else 0)
     except AssertionError:
         if ending != 'exception':
             raise
